@@ -529,7 +529,7 @@ pub fn gen_legacy(rng: &mut Rng, thorough: bool) -> Vec<String> {
     // keys whose first bytes spell the tail of a longer sibling address ("0", "1", "2", "0k" …)
     let keys = ["30", "31", "32", "306b", "316b", "30+6b", "-", "6b", "3030", "ff"];
     // contract1 / contract10 / contract11 / contract12 (prefixes), contract3 / CONTRACT3 and contract8 / CONTRACT8 (case)
-    let focus: Vec<String> = [1u64, 10, 11, 12, 3, 4, 8, 9, 0, 6, 5].iter().map(|i| sym(*i)).collect();
+    let focus: Vec<String> = [1u64, 10, 11, 12, 3, 4, 8, 9, 0, 6, 5, 2].iter().map(|i| sym(*i)).collect();
     let n = if thorough { rng.range(5, 12) } else { rng.range(3, 7) };
     for _ in 0..n {
         let c = rng.pick(&focus);
